@@ -2,6 +2,7 @@ package head
 
 import (
 	"context"
+	"errors"
 
 	"github.com/invopop/gobl/cbc"
 	"github.com/invopop/gobl/dsig"
@@ -60,12 +61,34 @@ func (h *Header) ValidateWithContext(ctx context.Context) error {
 				!internal.IsSigned(ctx),
 				validation.Empty,
 			),
+			validation.By(noNullEntries),
 			DetectDuplicateStamps,
 		),
 		validation.Field(&h.Links,
+			validation.By(noNullEntries),
 			DetectDuplicateLinks,
 		),
 	)
+}
+
+// noNullEntries refuses a list of stamps or links that holds a nil entry,
+// which is what a JSON null inside the array is read as.
+func noNullEntries(list any) error {
+	switch vs := list.(type) {
+	case []*Stamp:
+		for _, v := range vs {
+			if v == nil {
+				return errors.New("null values are not supported inside arrays")
+			}
+		}
+	case []*Link:
+		for _, v := range vs {
+			if v == nil {
+				return errors.New("null values are not supported inside arrays")
+			}
+		}
+	}
+	return nil
 }
 
 // AddStamp adds a new stamp to the header. If the stamp already exists,
